@@ -473,7 +473,7 @@ def dd_validate(text, bound, other_outputs):
     i = 0
     while i < len(lines) and (not lines[i].strip() or lines[i].lstrip().startswith('#')): i += 1
     if i >= len(lines) or lines[i].replace(' ', '') not in ('ninja_dyndep_version=1', 'ninja_dyndep_version=1.0'): return 'version'
-    i += 1; seen = set()
+    i += 1; seen = set(); claimed = set()
     while i < len(lines):
         l = lines[i]; i += 1
         if not l.strip() or l.lstrip().startswith('#'): continue
@@ -494,8 +494,11 @@ def dd_validate(text, bound, other_outputs):
         if outs[0] not in bound: return 'statement for an output not bound to this file'
         if outs[0] in seen: return 'duplicate statement'
         seen.add(outs[0])
+        cn = lambda o: o[2:] if o.startswith('./') else o
         for o in imp_outs:
-            if o in other_outputs: return 'claims an output another statement produces'
+            if cn(o) in other_outputs: return 'claims an output another statement produces'
+        if len({cn(o) for o in imp_outs}) != len(imp_outs) or any(cn(o) in claimed for o in imp_outs): return 'names an output twice'
+        claimed |= {cn(o) for o in imp_outs}
         while i < len(lines) and lines[i].startswith(' ') and lines[i].strip():
             b = lines[i].strip(); i += 1
             if not b.replace(' ', '').startswith('restat='): return 'binding other than restat'
@@ -527,7 +530,7 @@ def gen_dyndep_invalid(rnd, sid):
                 second = None
             else:
                 g.sources[second] = engine.dd_text(g.dd_info[second])
-    kind = rnd.choice(['truncate', 'truncate', 'delete-line', 'dup-line', 'extra-stmt', 'claim-output', 'garbage', 'missing', 'no-version', 'valid'] + (['other-file-stmt'] * 3 if second else []))
+    kind = rnd.choice(['truncate', 'truncate', 'delete-line', 'dup-line', 'extra-stmt', 'claim-output', 'dup-output', 'dup-output', 'garbage', 'missing', 'no-version', 'valid'] + (['other-file-stmt'] * 3 if second else []))
     new = text
     if kind == 'truncate': new = text[:rnd.randrange(0, len(text))]
     elif kind == 'delete-line':
@@ -543,6 +546,14 @@ def gen_dyndep_invalid(rnd, sid):
         ls = text.split('\n'); victim = rnd.choice([o for o in others if o not in bound] or ['zz'])
         ls[1] = ls[1].replace(': dyndep', ' | %s: dyndep' % victim, 1) if ' | ' not in ls[1].split(':')[0] else ls[1].replace(':', ' %s:' % victim, 1)
         new = '\n'.join(ls)
+    elif kind == 'dup-output':
+        # ONE statement names the same implicit output twice (possibly under two spellings)
+        ls = text.split('\n'); ks = [k for k, l in enumerate(ls) if l.startswith('build ')]; k = rnd.choice(ks)
+        left, right = ls[k].split(':', 1)
+        if ' | ' in left:
+            o = left.split(' | ')[1].split()[-1]; left += ' ' + (o if rnd.random() < 0.7 else './' + o)
+        else: left += ' | ddup%d %sddup%d' % (k, '' if rnd.random() < 0.7 else './', k)
+        ls[k] = left + ':' + right; new = '\n'.join(ls)
     elif kind == 'garbage': new = text.replace('dyndep', rnd.choice(['dyndp', 'phony', '']), 1)
     elif kind == 'no-version': new = '\n'.join(text.split('\n')[1:])
     h = Hist(sid, g); h.dd_kind = kind
